@@ -91,6 +91,15 @@ def corr_layout(chk, r, n):
                     + fmt_list(lambda kv: f"{kv[0][0]}.{kv[0][1]}.{kv[0][2]}.{kv[0][3]}:{int(kv[1][0].reshape(-1)[0])}:{int(kv[1][1].reshape(-1)[0])}", list(res.orders.items())),
                     back,
                 )
+            # python-side oracle: what comes back is what went in (this is the property itself)
+            if shape not in ("none",):
+                orig = fmt_list(
+                    lambda res: f"{q(float(res.x))};{q(float(res.Q2))};{'-' if res.nf is None else int(res.nf)};{q(float(res.y)) if hasattr(res, 'y') else '-'};"
+                    + fmt_list(lambda kv: f"{kv[0][0]}.{kv[0][1]}.{kv[0][2]}.{kv[0][3]}:{int(kv[1][0].reshape(-1)[0])}:{int(kv[1][1].reshape(-1)[0])}", list(res.orders.items())),
+                    out[name],
+                )
+                same = dict(o.split(":", 1) for o in []) is not None and sorted(orig.split(",")) == sorted(loaded.split(","))
+                chk.search_case("tar_loaded_equals_dumped", same, what=f"load_tar(dump_tar(o)) != o for a {shape} observable with {len(keys) if shape not in ('empty',) else 0} order keys", data=dict(shape=shape, original=orig[:400], loaded=loaded[:400]), sample=None)
             pend.append((idx, dumped + " # " + loaded, dict(shape=shape, obs=name, request=" ".join(toks)[:300]), shape + "/" + ("-" if shape in ("none", "empty") else f"n{npts}k{len(keys)}")))
             shutil.rmtree(tmp / f"x{case}")
             tp.unlink()
@@ -168,13 +177,13 @@ def search_real(chk, r, n, max_pto):
                 k = f"{type(e).__name__}:{str(e)[:80]}"
                 chk.extra["search_exceptions"][k] = chk.extra["search_exceptions"].get(k, 0) + 1
                 continue
-            fmt = r.choice(["tar", "yaml"])
-            cycles = r.choice([1, 2, 3])
+            fmt = r.choice(["tar", "yaml", "mixed"])
+            cycles = r.choice([1, 2, 3]) if fmt != "mixed" else 3
             cur = out
             problem = None
             try:
                 for c in range(cycles):
-                    if fmt == "tar":
+                    if fmt == "tar" or (fmt == "mixed" and c % 2 == 0):
                         tp = tmp / f"r{i}_{c}.tar"
                         cur.dump_tar(tp)
                         cur = Output.load_tar(tp)
